@@ -45,6 +45,7 @@ func isDeleteOn(in ssa.Instruction, owner, field string) (key ssa.Value, ok bool
 func runC05(c *Ctx) {
 	p := c.P
 	const P = "C05"
+	runHeapContract(c, P)
 	c.rule(P, "owner", "FileHandleMap tables are accessed under its RWMutex (writes exclusively) and written only by FileHandleMap methods", 20)
 	c.rule(P, "live", "in Allocate, a delete from handles reachable after the insertion of the returned handle is guarded by key != handle", 1)
 	c.rule(P, "dedup", "path lookup hit returns the stored id; fresh insertion records pathHandles[path]; deleters clear the reverse mapping", 4)
@@ -350,6 +351,7 @@ func runC05(c *Ctx) {
 func runC06(c *Ctx) {
 	p := c.P
 	const P = "C06"
+	runHeapContract(c, P)
 	c.rule(P, "fresh", "the id of a fresh insertion derives only from a monotonic counter field", 1)
 	c.rule(P, "noreset", "every non-constructor store to the counter is counter + positive constant", 1)
 	c.rule(P, "stale", "the not-found edge of every handle lookup returns status NFS3ERR_STALE before any backend call", 20)
